@@ -947,6 +947,12 @@ def independent_worker(seeds, wid, extra):
             root = os.path.join(base, "p%d" % sd)
             os.makedirs(root)
             texts = {}
+            # the fixed-roles family names its root T5 in every file: a patch rule for that name applies to each
+            patch_argv = []
+            if sd % 2 == 0 and sd % 4 == 0:
+                with open(os.path.join(root, "p.patch"), "w") as f:
+                    f.write("T5 type f1 u16\n")
+                patch_argv = ["--patch", "p.patch"]
             # base names that are no identifiers are legal file names too
             fnames = ("f1", "f2", "f3") if sd % 3 else ("f-1", "f2", "f.3")
             for name in fnames:
@@ -962,7 +968,7 @@ def independent_worker(seeds, wid, extra):
                 out = os.path.join(root, "o_" + tag)
                 os.makedirs(out)
                 argv = [n + ".prophy" for n in order] + ["--python_out", out, "--cpp_out", out, "--cpp_full_out", out,
-                                                          "--prophy_out", out]
+                                                          "--prophy_out", out] + patch_argv
                 rc, text = CL.run_cli(argv, cwd=root, env={"PYTHONHASHSEED": hashseed})
                 res["runs"] += 1
                 return rc, text, _snapshot(out)
@@ -1825,6 +1831,66 @@ def frontend_worker(cases, wid, extra):
     return res
 
 
+def enum_value_leg(forms):
+    """isar enumerator values (decimal / hexadecimal, negative = unsigned two's
+    complement) against spec/Frontends.tla EnumValueLimbs, through the model,
+    the generated Python module and the prophy-text twin"""
+    fails = []
+    work = tempfile.mkdtemp(prefix="vfenum-", dir=scratch_dir("fe"))
+    try:
+        members, want = [], {}
+        for k, f in enumerate(forms):
+            text = ("-" if f["neg"] else "") + (("0x%X" % f["m"]) if f["base"] == "x" else str(f["m"]))
+            name = "ZE_%d" % k
+            members.append('<enum-member name="%s" value="%s"/>' % (name, text))
+            want[name] = (f["limbs"][0] * 65536 + f["limbs"][1], text)
+        # distinct values only (isar refuses duplicates)
+        seen, keep = set(), []
+        for mline, (name, (v, text)) in zip(members, want.items()):
+            if v not in seen:
+                seen.add(v)
+                keep.append((mline, name, v, text))
+        xml = '<x><enum name="ZE">%s</enum><struct name="ZS"><member name="e" type="ZE"/></struct></x>' % "".join(k[0] for k in keep)
+        with open(os.path.join(work, "z.xml"), "w") as fh:
+            fh.write(xml)
+        status, nodes, _ = CL.run_main([os.path.join(work, "z.xml"), "--isar", "--python_out", work])
+        base = {"check": "frontend", "isar": xml}
+        if status != "ok":
+            return [dict(base, what="prophyc --isar failed on an enum with decimal/hex/negative values: %s" % (nodes,))]
+        enum = [n for n in nodes["z"] if n.name == "ZE"][0]
+        got = {m.name: int(str(m.value), 0) for m in enum.members}
+        try:
+            mod = P.import_generated(work, "z")
+        except P.CompileFailure as e:
+            return [dict(base, what="module generated from an isar enum with negative values does not import: %s" % e)]
+        for _, name, v, text in keep:
+            if got.get(name) != v:
+                fails.append(dict(base, what="isar enumerator value %r is %r in the model; it denotes %d" % (text, got.get(name), v)))
+            elif getattr(mod, name) != v:
+                fails.append(dict(base, what="isar enumerator value %r is %r in the generated module; it denotes %d"
+                                  % (text, getattr(mod, name), v)))
+        # the prophy-text twin encodes the same
+        twin = "enum ZE { %s };\nstruct ZS { ZE e; };\n" % ", ".join("%s = 0x%X" % (name, v) for _, name, v, _ in keep)
+        sub = os.path.join(work, "t")
+        os.makedirs(sub)
+        with open(os.path.join(sub, "z.prophy"), "w") as fh:
+            fh.write(twin)
+        st2, _, _ = CL.run_main([os.path.join(sub, "z.prophy"), "--python_out", sub])
+        if st2 == "ok":
+            mod2 = P.import_generated(sub, "z")
+            for _, name, v, text in keep:
+                a, b = mod.ZS(), mod2.ZS()
+                a.e, b.e = name, name
+                if a.encode("<") != b.encode("<") or a.encode(">") != b.encode(">"):
+                    fails.append(dict(base, what="enumerator %r: isar codec encodes %s, prophy-text codec %s"
+                                      % (text, a.encode("<").hex(), b.encode("<").hex())))
+        else:
+            fails.append(dict(base, what="the prophy-text twin of the enum is rejected"))
+    finally:
+        shutil.rmtree(work, ignore_errors=True)
+    return fails
+
+
 def c17(tier, replay):
     rep = Report("C17", tier)
     rep.assumptions = [
@@ -1835,10 +1901,13 @@ def c17(tier, replay):
         "skipped; encodings use the vectors TLC generates for the target (spec/WireGiven.tla)",
         "modelled isar forms: plain, optional, size, size x size2, variable size (own counter, named/typed counter, with "
         "size in struct vs message), '@sizer', THIS_IS_VARIABLE_SIZE_ARRAY, optional + dimension (explicit has_ enabler)"]
-    cases = []
-    res = run_tlc("Frontends", {}, invariants=["AbsentIgnored", "FDump"], spec="FSpec", prefix=("FE",),
-                  on_line=lambda t, b: cases.append(json.loads(b)))
+    cases, enum_forms = [], []
+    res = run_tlc("Frontends", {}, invariants=["AbsentIgnored", "FDump"], spec="FSpec", prefix=("FE", "FEENUM"),
+                  on_line=lambda t, b: (enum_forms.extend(json.loads(b)) if t == "FEENUM" else cases.append(json.loads(b))))
     rep.add_tlc(res.stats)
+    for f in enum_value_leg(enum_forms):
+        rep.violation(f, shadows.match("C17", f))
+    rep.cov["isar_enum_value_forms"] = len(enum_forms)
     rnd = random.Random(seed())
     n = 900 if tier == "quick" else len(cases)
     pick = rnd.sample(cases, min(n, len(cases)))
